@@ -228,8 +228,8 @@ static const OrcX86Opcode orc_x86_opcodes[] = {
   { "xor", ORC_X86_INSN_TYPE_IMM32_REGM, 0, ORC_VEX_SIMD_PREFIX_NONE, 0x81, 6 },
   { "xor", ORC_X86_INSN_TYPE_REGM_REG, 0, ORC_VEX_SIMD_PREFIX_NONE, 0x33 },
   { "xor", ORC_X86_INSN_TYPE_REG_REGM, 0, ORC_VEX_SIMD_PREFIX_NONE, 0x31 },
-  { "cmpb", ORC_X86_INSN_TYPE_IMM8_REGM, 0, ORC_VEX_SIMD_PREFIX_NONE, 0x83, 7 },
-  { "cmpd", ORC_X86_INSN_TYPE_IMM32_REGM, 0, ORC_VEX_SIMD_PREFIX_NONE, 0x81, 7 },
+  { "cmpl", ORC_X86_INSN_TYPE_IMM8_REGM, 0, ORC_VEX_SIMD_PREFIX_NONE, 0x83, 7 },
+  { "cmpl", ORC_X86_INSN_TYPE_IMM32_REGM, 0, ORC_VEX_SIMD_PREFIX_NONE, 0x81, 7 },
   { "cmp", ORC_X86_INSN_TYPE_REGM_REG, 0, ORC_VEX_SIMD_PREFIX_NONE, 0x3b },
   { "cmp", ORC_X86_INSN_TYPE_REG_REGM, 0, ORC_VEX_SIMD_PREFIX_NONE, 0x39 },
   { "jo", ORC_X86_INSN_TYPE_BRANCH, 0, ORC_VEX_SIMD_PREFIX_NONE, 0x70 },
@@ -565,7 +565,8 @@ orc_x86_insn_output_asm (OrcCompiler *p, OrcX86Insn *xinsn)
       src_op[0] = 0;
       break;
     case ORC_X86_INSN_TYPE_REG_REGM:
-      sprintf(src_op, "%%%s, ", orc_x86_get_regname (operand1));
+      sprintf(src_op, "%%%s, ", orc_x86_get_regname_size (operand1,
+          xinsn->size == 8 ? 8 : 4));
       break;
     case ORC_X86_INSN_TYPE_REG8_REGM:
       sprintf(src_op, "%%%s, ", orc_x86_get_regname_8 (operand1));
@@ -714,7 +715,12 @@ orc_x86_insn_output_asm (OrcCompiler *p, OrcX86Insn *xinsn)
     case ORC_X86_INSN_TYPE_REG_REGM:
     case ORC_X86_INSN_TYPE_IMM8_MMX_REG_REV:
       if (xinsn->type == ORC_X86_RM_REG) {
-        sprintf(dst_op, "%%%s", orc_x86_get_regname (xinsn->dest));
+        if (xinsn->opcode->type == ORC_X86_INSN_TYPE_REG_REGM &&
+            xinsn->size == 8) {
+          sprintf(dst_op, "%%%s", orc_x86_get_regname_64 (xinsn->dest));
+        } else {
+          sprintf(dst_op, "%%%s", orc_x86_get_regname (xinsn->dest));
+        }
       } else if (xinsn->type == ORC_X86_RM_MEMOFFSET) {
         sprintf(dst_op, "%d(%%%s)", xinsn->offset,
             orc_x86_get_regname_ptr (p, xinsn->dest));
